@@ -1101,19 +1101,19 @@ func lemmaCreateThenMapQueue(data []byte, cap uint32) {
 //@ |  && s.bufferHeader != nil && sameMem(s.bufferHeader, l.bufferRegion, slotOf(l, s)) && len(s.bufferHeader) >= 20 && sameMem(s.data, l.bufferRegion, slotOf(l, s) + 20)
 // allocShmBuffer: first class that is large enough and still has a buffer to spare. The result is owned by the
 // list it was popped from (ghost gowner), has at least the requested capacity; a failed allocation consumes nothing.
-//@ pure mgrLists(b *bufferManager): bool = forall j in [0, len(b.lists)) trig(b.lists[j]): wfList(b.lists[j])
+//@ pure mgrLists(b *bufferManager): bool = forall j in [0, len(b.lists)) trig(b.lists[j]): folded(wfList(b.lists[j]))   // folded: the invariant of each list as an opaque fact; it is only ever passed on to pop
 //@ func (*bufferManager).allocShmBuffer
 //@   requires[C01,C02] mgrGeom(b) && mgrLists(b)
-//@   at call (*bufferList).pop#0 ghost r0.gowner := ite(r1 == nil, i, r0.gowner)
+//@   at call (*bufferList).pop#0 ghost[C01,C02] r0.gowner := ite(r1 == nil, i, r0.gowner)
 //@   ensures[C01,C02] r1 != nil ==> r0 == nil && r1 == ErrNoMoreBuffer
 //@   ensures[C02] r1 != nil ==> forall j in [0, len(b.lists)) trig(b.lists[j]): b.lists[j].n == old(b.lists[j].n) && b.lists[j].cs == old(b.lists[j].cs) && b.lists[j].held == old(b.lists[j].held)
-//@   ensures[C01,C02] r1 == nil ==> r0 != nil && fresh(r0) && 0 <= r0.gowner && r0.gowner < len(b.lists) && r0.isFromShm && size <= r0.cap
-//@   ensures[C01,C02] r1 == nil ==> wfList(b.lists[r0.gowner]) && ownedBy(b.lists[r0.gowner], r0)
-//@   ensures[C02] r1 == nil ==> b.lists[r0.gowner].n == old(b.lists[r0.gowner].n) - 1
-//@   ensures[C02] r1 == nil ==> forall j in [0, len(b.lists)) trig(b.lists[j]): j != r0.gowner ==> b.lists[j].n == old(b.lists[j].n) && b.lists[j].held == old(b.lists[j].held)
+//@   ensures[C01,C02] r1 == nil ==> r0 != nil && fresh(r0) && 0 <= r0.gowner && r0.gowner < len(b.lists) && wfList(b.lists[r0.gowner])
+//@   ensures[C01] r1 == nil ==> r0.isFromShm && size <= r0.cap && ownedBy(b.lists[r0.gowner], r0)
+//@   ensures[C02] r1 == nil ==> forall j in [0, len(b.lists)) trig(b.lists[j]): (j == r0.gowner ==> b.lists[j].n == old(b.lists[j].n) - 1) && (j != r0.gowner ==> b.lists[j].n == old(b.lists[j].n) && b.lists[j].held == old(b.lists[j].held))
 //@   loop 0 invariant[C01,C02] -1 <= rangeindex && rangeindex < len(b.lists)
 //@   loop 0 invariant[C02] forall j in [0, len(b.lists)) trig(b.lists[j]): b.lists[j].n == old(b.lists[j].n) && b.lists[j].cs == old(b.lists[j].cs) && b.lists[j].held == old(b.lists[j].held)
 //@   loop 0 assume[C01,C02] mgrLists(b)   // a failed pop on one list leaves the invariant of the OTHER lists intact (their words and slots are disjoint: mgrGeom); assumed, not proved
+//@   at call (*bufferList).pop#0 assume[C01,C02] forall j in [0, len(b.lists)) trig(b.lists[j]): j != i ==> b.lists[j] != b.lists[i]   // the lists are distinct objects (one allocation each in create/mappingFreeBufferList); assumed
 //@ func (*bufferManager).recycleBuffer
 //@   nilable
 //@   requires[C01,C02] b != nil && mgrGeom(b)
